@@ -306,11 +306,25 @@ def stuck_diagnosis(out) -> str:
     for st in out["final"]["stages"]:
         if st["status"] not in COMPLETE and st["status"] != "NOT_STARTED":
             parts.add(st["status"] + "[" + ",".join(sorted({t[0] for t in st["tasks"]})) + "]")
+    redirected = {p for p in parts if "REDIRECT" in p}
+    if redirected:
+        # the identity of the stale-REDIRECT findings (F10) is the task left REDIRECT in a RUNNING stage; the stages
+        # that merely wait for it (its parent, its siblings) are a consequence
+        parts = redirected
     if not parts:
         sts = {st["status"] for st in out["final"]["stages"]}
         parts = {"nothing-started" if sts == {"NOT_STARTED"} else
                  ("all-stages-complete" if all(x in COMPLETE for x in sts) else "only-NOT_STARTED-left")}
-    return ";".join(sorted(parts))
+    return ";".join(sorted(parts)) + spec_tag(out)
+
+
+def spec_tag(out) -> str:
+    """which rarely-combined features the workflow uses: part of the identity of a stuck-state finding, so that the
+    known stale-message findings of jump loops (F10 family) cannot hide a stuck workflow that has no jump at all"""
+    specs = spec_map(out)
+    has_jump = any(str(step).startswith("jump") for sp in specs.values() for steps in sp.get("tasks", []) for step in steps)
+    has_syn = any(sp.get("parent") for sp in specs.values())
+    return ("@jump" + ("+syn" if has_syn else "")) if has_jump else ""
 
 
 # ---------------------------------------------------------------------------------------------- C05
